@@ -2027,9 +2027,11 @@ fn main() {
 			if san {
 				(q / 60).max(1)
 			} else {
+				// thresholds are a third of what the time-budgeted workload yields under moderate
+				// load (the workload is capped by time, so a heavily loaded machine yields fewer cases)
 				match run.tier {
-					Tier::Quick => q,
-					Tier::Thorough => t,
+					Tier::Quick => (q / 3).max(1),
+					Tier::Thorough => (t / 3).max(1),
 				}
 			}
 		};
